@@ -138,11 +138,35 @@ def rule_units(ck):
         forms.append('datetime.datetime(1970, 1, 1, tzinfo=datetime.timezone.utc) + datetime.timedelta(milliseconds=%s)' % arg)
     NE = sym.Normalizer(erase_shape=False)
     okforms = [NE.nf(ast.parse(t_.format(p=p), mode='eval').body) for t_ in forms]
+    def is_utc_epoch(e):
+        """datetime(1970, 1, 1[, 0...]) made UTC-aware by tzinfo= or by .replace(tzinfo=utc)"""
+        aware = False
+        if isinstance(e, ast.Call) and isinstance(e.func, ast.Attribute) and e.func.attr == 'replace' and not e.args \
+                and [k_.arg for k_ in e.keywords] == ['tzinfo'] and u(e.keywords[0].value) == 'datetime.timezone.utc':
+            aware, e = True, e.func.value
+        if not (isinstance(e, ast.Call) and call_name(e) == 'datetime.datetime'):
+            return False
+        vals = [const_value(a_) for a_ in e.args]
+        if vals[:3] != [1970, 1, 1] or any(v_ != 0 for v_ in vals[3:7]):
+            return False
+        tzk = kw(e, 'tzinfo', 7)
+        if tzk is not None and u(tzk) == 'datetime.timezone.utc':
+            aware = True
+        return aware
+
+    def exact_sum(e):
+        if isinstance(e, ast.BinOp) and isinstance(e.op, ast.Add):
+            for a_, b_ in ((e.left, e.right), (e.right, e.left)):
+                if is_utc_epoch(a_) and isinstance(b_, ast.Call) and call_name(b_) == 'datetime.timedelta' and not b_.args \
+                        and [k_.arg for k_ in b_.keywords] == ['milliseconds'] \
+                        and u(b_.keywords[0].value) in (p, 'builtins.float(%s)' % p, 'builtins.int(%s)' % p):
+                    return True
+        return False
     for x in rr:
         for alt in phi_alternatives(ex.expand(x.value)):
             oo = ck.ob('C15-D1.branch', f, u(alt)[:120], x)
             try:
-                good = NE.nf(alt) in okforms
+                good = NE.nf(alt) in okforms or exact_sum(alt)
             except Exception:
                 good = False
             (oo.ok('exact construction') if good else
@@ -152,7 +176,7 @@ def rule_units(ck):
     ck.clause('D2')
     o = ck.ob('C15-D2.tz', f, calls[0], calls[0])
     tz = calls[0].args[1] if len(calls[0].args) > 1 else kw(calls[0], 'tz')
-    (o.ok('tz=UTC') if tz is not None and P.canon(f, tz) == 'datetime.timezone.utc' else
+    (o.ok('tz=UTC') if tz is not None and u(ex.expand(tz)) == 'datetime.timezone.utc' else
      o.fail('fromtimestamp is called without tz=datetime.timezone.utc: the result would be in the machine\'s local time zone'))
 
 
@@ -164,9 +188,10 @@ def rule_utc(ck):
     tags = [n for n in all_nodes(f) if isinstance(n, ast.If) and 'tzinfo' in u(n.test) and 'None' in u(n.test)]
     o = ck.ob('C15-D2.naive', f, tags[0].test if tags else 'naive datetimes tagged UTC', tags[0] if tags else f.node)
     good = False
+    exf = Expander(P, f, keep=set(f.params))
     for t in tags:
         for s in t.body:
-            if isinstance(s, ast.Assign) and 'replace(tzinfo=datetime.timezone.utc)' in u(s.value):
+            if isinstance(s, ast.Assign) and 'replace(tzinfo=datetime.timezone.utc)' in u(exf.expand(s.value)):
                 good = True
     (o.ok('naive -> tzinfo=UTC') if good else o.fail('a naive datetime is not tagged as UTC before the subtraction from the UTC epoch (TypeError or local-time shift)'))
     rs = [n for n in all_nodes(f) if isinstance(n, ast.If) and any(isinstance(s, ast.Raise) for s in n.body) and 'tzinfo' in u(n.test)]
@@ -313,9 +338,9 @@ def rule_decimal_year(ck):
         e = exg.expand(r[0].value)
         o = ck.ob('C15-D4.inverse-form', g, r[0].value, r[0])
         txt = u(e)
-        want_us = N.nf('__phi__(365.0, 366.0) * 24 * 60 * 60 * 1000000.0 * (%s %% 1)' % p)
+        want_us = [N.nf('__phi__(%s) * 24 * 60 * 60 * 1000000.0 * (%s %% 1)' % (o_, p)) for o_ in ('365.0, 366.0', '366.0, 365.0')]
         tds = [c for c in ast.walk(e) if isinstance(c, ast.Call) and call_name(c) == 'datetime.timedelta']
-        good = len(tds) == 1 and kw(tds[0], 'microseconds') is not None and N.nf(kw(tds[0], 'microseconds')) == want_us and \
+        good = len(tds) == 1 and kw(tds[0], 'microseconds') is not None and N.nf(kw(tds[0], 'microseconds')) in want_us and \
             'datetime.datetime(builtins.int(%s // 1), 1, 1, 0, 0, 0, 0)' % p in txt and txt.endswith('.replace(tzinfo=datetime.timezone.utc)')
         (o.ok('Jan 1 of the year + fraction * year length, tagged UTC') if good else
          o.fail('the inverse is `%s`, expected datetime(year,1,1) + timedelta(microseconds = year_length_us * fraction) in UTC' % txt[:120]))
